@@ -44,6 +44,15 @@ def run(rep, tier, build, replay=None):
             cases.append({'resources': indep, 'multi': indep, 'orphan_extension': ext[0][1] if ext else None})
         else:
             cases.append({'resources': [rng.choice(plain)], 'orphan_extension': ext[0][1] if ext else None})
+    # crafted: a 1.1 lexicon-level <SyntacticBehaviour> that lists a sense in its `senses` attribute while another sense
+    # refers to it through `subcat` (both ways of linking are merged on insert; the resource handed in must stay as it was)
+    cf = {'id': 'cf', 'label': 'crafted frames', 'language': 'en', 'email': 'e', 'license': 'l', 'version': '1', 'meta': None,
+          'entries': [{'id': 'cf-e0', 'meta': None, 'lemma': {'writtenForm': 'paint', 'partOfSpeech': 'v'},
+                       'senses': [{'id': 'cf-e0-s0', 'synset': 'cf-ss0', 'meta': None},
+                                  {'id': 'cf-e0-s1', 'synset': 'cf-ss0', 'meta': None, 'subcat': ['cf-fr0']}]}],
+          'synsets': [{'id': 'cf-ss0', 'ili': '', 'partOfSpeech': 'v', 'meta': None}],
+          'frames': [{'id': 'cf-fr0', 'subcategorizationFrame': 'Somebody ----s', 'senses': ['cf-e0-s0']}]}
+    cases.append({'resources': [('cf:1', {'lmf_version': '1.1', 'lexicons': [cf]})], 'orphan_extension': None})
     nsh = min(common.NPROC, len(cases))
     outs = common.run_impl_parallel('run_C07.py', [{'cases': cases[i::nsh]} for i in range(nsh)])
     evals = 0
